@@ -420,3 +420,263 @@ pub fn run_ecdsa(tr: &mut Trace, rng: &mut Rng, which: &str, honest: usize, adv:
         _ => k1_impl::run(tr, rng, honest, adv),
     }
 }
+
+// ------------------------------------------------------------------ jq255e / jq255s / gls254
+
+macro_rules! jq_impl {
+    ($modname:ident, $cname:expr, $m:ident) => {
+        mod $modname {
+            use super::*;
+            use crrl::$m::{Point, PrivateKey, PublicKey, Scalar};
+
+            fn keygen(tr: &mut Trace, sk: &[u8]) -> Option<Vec<u8>> {
+                let skv = sk.to_vec();
+                let e = Ev::new("jq_keygen").s("c", $cname).b("sk", sk);
+                match guarded(move || PrivateKey::decode(&skv).map(|k| k.public_key.encode().to_vec())) {
+                    Ok(None) => { tr.emit(e.t("skok", false)); None }
+                    Ok(Some(pk)) => { tr.emit(e.t("skok", true).b("pk", &pk)); Some(pk) }
+                    Err(m) => { tr.emit(e.s("panic", &m)); None }
+                }
+            }
+            fn verify(tr: &mut Trace, pk: &[u8], sig: &[u8], hn: &str, data: &[u8]) {
+                let e = Ev::new("jq_verify").s("c", $cname).b("pk", pk).b("sig", sig).b("hn", hn.as_bytes()).b("data", data);
+                let (pkv, sv, hv, dv) = (pk.to_vec(), sig.to_vec(), hn.to_string(), data.to_vec());
+                match guarded(move || PublicKey::decode(&pkv).map(|k| k.verify(&sv, &hv, &dv))) {
+                    Ok(None) => tr.emit(e.t("pkok", false)),
+                    Ok(Some(r)) => tr.emit(e.t("pkok", true).t("res", r)),
+                    Err(m) => tr.emit(e.s("panic", &m)),
+                }
+            }
+            fn ecdh(tr: &mut Trace, sk: &[u8], peer: &[u8]) -> Option<(Vec<u8>, u32)> {
+                let (skv, pv) = (sk.to_vec(), peer.to_vec());
+                let e = Ev::new("jq_ecdh").s("c", $cname).b("sk", sk).b("peer", peer);
+                match guarded(move || PrivateKey::decode(&skv).map(|k| k.ECDH(&pv))) {
+                    Ok(Some((key, st))) => { tr.emit(e.b("key", &key).st("st", st)); Some((key.to_vec(), st)) }
+                    Ok(None) => None,
+                    Err(m) => { tr.emit(e.s("panic", &m)); None }
+                }
+            }
+
+            pub fn run(tr: &mut Trace, rng: &mut Rng, n_honest: usize, n_adv: usize) {
+                tr.emit(Ev::new("init").s("dom", $cname));
+                let n = BigUint::from_bytes_le(&(-Scalar::ONE).encode()) + 1u32;
+                let le32 = |x: &BigUint| { let mut b = x.to_bytes_le(); if b == [0] { b.clear(); } b.resize(32.max(b.len()), 0); b };
+                for sk in [vec![0u8; 32], le32(&BigUint::from(1u32)), le32(&(&n - 1u32)), le32(&n), le32(&(&n + 1u32)), vec![0xFFu8; 32], vec![1u8; 31], vec![1u8; 33]] {
+                    keygen(tr, &sk);
+                }
+                let names = ["", "sha256", "blake2s", "sha512", "x"];
+                let mut keys: Vec<(Vec<u8>, Vec<u8>)> = Vec::new();
+                for i in 0..n_honest {
+                    let sk = match i { 0 => le32(&BigUint::from(1u32)), 1 => le32(&(&n - 1u32)), _ => le32(&(BigUint::from_bytes_le(&rng.bytes(40)) % (&n - 1u32) + 1u32)) };
+                    let pk = match keygen(tr, &sk) { Some(p) => p, None => continue };
+                    keys.push((sk.clone(), pk.clone()));
+                    let hn = names[i % names.len()];
+                    let data = { let l = *rng.pick(&[0usize, 1, 31, 32, 33, 63, 64, 65, 100]); rng.bytes(l) };
+                    let seed = { let l = *rng.pick(&[0usize, 0, 1, 32, 70]); rng.bytes(l) };
+                    let k = PrivateKey::decode(&sk).unwrap();
+                    let (sd, dv) = (seed.clone(), data.clone());
+                    let e = Ev::new("jq_sign").s("c", $cname).b("sk", &sk).b("seed", &seed).b("hn", hn.as_bytes()).b("data", &data);
+                    let sig = match guarded(move || if sd.is_empty() { k.sign(hn, &dv).to_vec() } else { k.sign_seeded(&sd, hn, &dv).to_vec() }) {
+                        Ok(s) => { tr.emit(e.b("sig", &s)); s } Err(m) => { tr.emit(e.s("panic", &m)); continue; } };
+                    verify(tr, &pk, &sig, hn, &data);
+                    let k = PrivateKey::decode(&sk).unwrap();
+                    let dv = data.clone();
+                    let mut r2 = Rng::new(rng.u64());
+                    let e = Ev::new("jq_sign_rand").s("c", $cname).b("sk", &sk).b("hn", hn.as_bytes()).b("data", &data);
+                    match guarded(move || k.sign_randomized(&mut r2, hn, &dv).to_vec()) {
+                        Ok(s) => { tr.emit(e.b("sig", &s)); verify(tr, &pk, &s, hn, &data); } Err(m) => tr.emit(e.s("panic", &m)) }
+                    // alterations
+                    let mut s2 = sig.clone(); let bit = rng.below(8 * 48); s2[bit / 8] ^= 1 << (bit % 8); verify(tr, &pk, &s2, hn, &data);
+                    verify(tr, &pk, &sig, if hn.is_empty() { "sha256" } else { "" }, &data);
+                    let mut d2 = data.clone(); d2.push(0); verify(tr, &pk, &sig, hn, &d2);
+                    let mut s3 = sig.clone(); s3.push(0); verify(tr, &pk, &s3, hn, &data); s3.truncate(47); verify(tr, &pk, &s3, hn, &data);
+                    verify(tr, &pk, &[], hn, &data);
+                }
+                // adversarial: chosen challenge bytes c (extreme multipliers) and s in {r-1, r, r+1}; a signature
+                // valid by construction for a chosen c cannot be made (c is a hash output), so these must be judged
+                // by the recomputed challenge; s + r (non-canonical) must be rejected even when s verifies
+                for i in 0..n_adv {
+                    let (sk, pk) = keys[rng.below(keys.len())].clone();
+                    let k = PrivateKey::decode(&sk).unwrap();
+                    let data = rng.bytes(8);
+                    let sig = k.sign("", &data).to_vec();
+                    let sv = BigUint::from_bytes_le(&sig[16..48]);
+                    let mut cands: Vec<Vec<u8>> = Vec::new();
+                    let snc = &sv + &n;
+                    if snc.bits() <= 256 { let mut t = sig[..16].to_vec(); t.extend_from_slice(&le32(&snc)); cands.push(t); }
+                    for c in [vec![0u8; 16], vec![0xFFu8; 16], { let mut c = vec![0u8; 16]; c[15] = 0x80; c }, { let mut c = vec![0xFFu8; 16]; c[8] = 0; c }] {
+                        for s in [le32(&(&n - 1u32)), le32(&n), le32(&(&n + 1u32)), sig[16..48].to_vec()] {
+                            let mut t = c.clone(); t.extend_from_slice(&s); cands.push(t);
+                        }
+                    }
+                    for t in cands.iter().skip(i % 3).step_by(3) { verify(tr, &pk, t, "", &data); }
+                    // public keys that are not valid elements / neutral / wrong length
+                    for bad in [vec![0u8; 32], vec![0xFFu8; 32], rng.bytes(32), pk[..31].to_vec()] { verify(tr, &bad, &sig, "", &data); }
+                }
+                // ECDH: both sides of every pair from a pool that contains public keys whose first byte is
+                // 0x00 / 0xFF (boundary of the lexicographic ordering), and failure cases
+                let mut pool = keys.clone();
+                let mut want: Vec<u8> = vec![0xFF, 0xFF, 0x00, 0x00, 0x7F, 0x80];
+                let mut j = 2u32;
+                while !want.is_empty() && j < 6000 {
+                    let sk = le32(&BigUint::from(j));
+                    let pk = Point::mulgen(&Scalar::from_u32(j)).encode().to_vec();
+                    if let Some(p) = want.iter().position(|&b| b == pk[0]) { want.remove(p); pool.push((sk, pk)); }
+                    j += 1;
+                }
+                for a in 0..pool.len() { for b in 0..pool.len() {
+                    if a == b || (a + b) % 3 == 2 && a < keys.len() && b < keys.len() { continue; }
+                    ecdh(tr, &pool[a].0, &pool[b].1);
+                } }
+                for bad in [vec![0u8; 32], vec![0xFFu8; 32], rng.bytes(32), rng.bytes(32), rng.bytes(31), rng.bytes(33), Vec::new()] {
+                    let (sk1, sk2) = (pool[0].0.clone(), pool[1].0.clone());
+                    let r1 = ecdh(tr, &sk1, &bad);
+                    let r2 = ecdh(tr, &sk2, &bad);
+                    if let (Some((k1, s1)), Some((k2, s2))) = (r1, r2) {
+                        if s1 == 0 && s2 == 0 {
+                            tr.emit(Ev::new("jq_ecdh_fail2").s("c", $cname).b("peer", &bad).b("sk1", &sk1).b("sk2", &sk2)
+                                .b("key1", &k1).b("key2", &k2).st("st1", s1).st("st2", s2));
+                        }
+                    }
+                }
+            }
+        }
+    };
+}
+
+jq_impl!(jq255e_impl, "jq255e", jq255e);
+jq_impl!(jq255s_impl, "jq255s", jq255s);
+jq_impl!(gls254_impl, "gls254", gls254);
+
+pub fn run_jq(tr: &mut Trace, rng: &mut Rng, which: &str, honest: usize, adv: usize) {
+    match which {
+        "jq255e" => jq255e_impl::run(tr, rng, honest, adv),
+        "jq255s" => jq255s_impl::run(tr, rng, honest, adv),
+        _ => gls254_impl::run(tr, rng, honest, adv),
+    }
+}
+
+// ------------------------------------------------------------------ truncated signatures (C13)
+
+fn overwrite_tail(sig: &[u8], rm: usize, fill: &[u8]) -> Vec<u8> {
+    // the last floor(rm/8) bytes and the top rm%8 bits of the last non-ignored byte
+    let mut s = sig.to_vec();
+    let nb = rm / 8;
+    for i in 0..nb { s[63 - i] = fill[i]; }
+    let rb = rm % 8;
+    if rb > 0 {
+        let m = (0xFFu8 << (8 - rb)) as u8;
+        s[63 - nb] = (s[63 - nb] & !m) | (fill[nb] & m);
+    }
+    s
+}
+
+pub fn run_trunc(tr: &mut Trace, rng: &mut Rng, what: &str, n: usize, part: usize, parts: usize) {
+    tr.emit(Ev::new("init").s("dom", "trunc"));
+    let fills = |rng: &mut Rng, k: usize| -> Vec<u8> { match k % 3 { 0 => vec![0u8; 5], 1 => vec![0xFFu8; 5], _ => rng.bytes(5) } };
+    if what == "ed25519" {
+        use crrl::ed25519::PrivateKey;
+        for i in 0..n {
+            let sk = PrivateKey::from_seed(&rng.bytes(32));
+            let pk = sk.public_key;
+            let msg = { let l = rng.below(40); rng.bytes(l) };
+            let mode = ["raw", "ctx", "ph"][i % 3];
+            let ctx = if mode == "raw" { Vec::new() } else { let l = rng.below(5); rng.bytes(l) };
+            let m2 = if mode == "ph" { rng.bytes(64) } else { msg.clone() };
+            let orig = match mode { "raw" => sk.sign_raw(&m2), "ctx" => sk.sign_ctx(&ctx, &m2), _ => sk.sign_ph(&ctx, &m2) }.to_vec();
+            let rm = 8 + (i * 7 + rng.below(3)) % 25;
+            let f = fills(rng, i);
+            let mut cases = vec![overwrite_tail(&orig, rm, &f)];
+            // an invalid prefix: a kept bit flipped
+            let mut bad = overwrite_tail(&orig, rm, &f); let bit = rng.below(512 - rm); bad[bit / 8] ^= 1 << (bit % 8); cases.push(bad);
+            for sig in cases {
+                let (pk2, s2, c2, mm, md) = (pk, sig.clone(), ctx.clone(), m2.clone(), mode.to_string());
+                let e = Ev::new("ed_trunc").s("mode", mode).b("pk", &pk.encode()).b("msg", &m2).b("ctx", &ctx).b("orig", &orig)
+                    .b("sig", &sig).n("rm", rm as i64);
+                match guarded(move || match md.as_str() { "raw" => pk2.verify_trunc_raw(&s2, rm, &mm), "ctx" => pk2.verify_trunc_ctx(&s2, rm, &c2, &mm), _ => pk2.verify_trunc_ph(&s2, rm, &c2, &mm) }) {
+                    Ok(Some(o)) => tr.emit(e.t("some", true).b("out", &o)),
+                    Ok(None) => tr.emit(e.t("some", false)),
+                    Err(m) => tr.emit(e.s("panic", &m)),
+                }
+            }
+        }
+    } else if what == "sweep" {
+        // A = neutral: (R = [S]B, S) verifies for every S.  S walks S0 + j * 2^237 over this chunk of the
+        // 2^15 possible values of the bits above 2^237.
+        use crrl::ed25519::{Point, PublicKey, Scalar};
+        let pk = PublicKey::decode(&{ let mut b = vec![0u8; 32]; b[0] = 1; b }).unwrap();
+        let total = 1usize << 15;
+        let (lo, hi) = (total * part / parts, total * (part + 1) / parts);
+        let low: BigUint = BigUint::from_bytes_le(&rng.bytes(29)) >> 2usize; // random low part below 2^230
+        let step = BigUint::from(1u32) << 237;
+        let l_order = BigUint::from_bytes_le(&(-Scalar::ONE).encode()) + 1u32;
+        let s0 = &low + &step * (lo as u32);
+        let le32 = |x: &BigUint| { let mut b = x.to_bytes_le(); if b == [0] { b.clear(); } b.resize(32, 0); b };
+        let s0m = if lo == 0 { // start one step below (mod nothing: use low itself and emit from j = 1)
+            low.clone() } else { &s0 - &step };
+        tr.emit(Ev::new("sweep_init").b("s0", &le32(&s0m)).b("step", &le32(&step)));
+        let mut s = s0m.clone();
+        let mut k = 0usize;
+        let stride = n.max(1);
+        let _ = hi;
+        for j in lo..hi {
+            s += &step;
+            if s >= l_order { break; }
+            // the harness may skip values (stride); the specification then needs the skipped additions too,
+            // so every value is emitted and `n` only selects which rm / fill is used
+            let sc = Scalar::decode_reduce(&le32(&s));
+            let r = Point::mulgen(&sc).encode();
+            let mut orig = r.to_vec(); orig.extend_from_slice(&le32(&s));
+            let rm = if j % 5 == 0 { 19 + (j % 14) } else { 32 };
+            let sig = overwrite_tail(&orig, rm, &fills(rng, k));
+            k += stride;
+            let s2 = sig.clone();
+            let e = Ev::new("sweep_step").b("orig", &orig).b("sig", &sig).n("rm", rm as i64);
+            match guarded(move || pk.verify_trunc_raw(&s2, rm, b"")) {
+                Ok(Some(o)) => tr.emit(e.t("some", true).b("out", &o)),
+                Ok(None) => tr.emit(e.t("some", false)),
+                Err(m) => tr.emit(e.s("panic", &m)),
+            }
+        }
+    } else {
+        use crrl::p256::{PrivateKey};
+        for i in 0..n {
+            let sk = PrivateKey::from_seed(&rng.bytes(32));
+            let pk = sk.to_public_key();
+            let hv = rng.bytes(32);
+            let sig = sk.sign_hash(&hv, b"").to_vec();
+            let s2 = sig.clone();
+            let e = Ev::new("p256_prepare").b("sig", &sig);
+            let prep = match guarded(move || PrivateKey::prepare_truncate(&s2)) {
+                Ok(Some(p)) => { tr.emit(e.t("some", true).b("out", &p)); p.to_vec() }
+                Ok(None) => { tr.emit(e.t("some", false)); continue; }
+                Err(m) => { tr.emit(e.s("panic", &m)); continue; }
+            };
+            let rm = 8 + (i * 5 + rng.below(3)) % 25;
+            let f = fills(rng, i);
+            let mut cases = vec![overwrite_tail(&prep, rm, &f)];
+            let mut bad = overwrite_tail(&prep, rm, &f); let bit = rng.below(512 - rm); bad[bit / 8] ^= 1 << (bit % 8); cases.push(bad);
+            for c in cases {
+                let (c2, h2) = (c.clone(), hv.clone());
+                let e = Ev::new("p256_trunc").b("pk", &pk.encode_uncompressed()).b("hv", &hv).b("orig", &prep).b("sig", &c).n("rm", rm as i64);
+                match guarded(move || pk.verify_trunc_hash(&c2, rm, &h2)) {
+                    Ok(Some(o)) => tr.emit(e.t("some", true).b("out", &o)),
+                    Ok(None) => tr.emit(e.t("some", false)),
+                    Err(m) => tr.emit(e.s("panic", &m)),
+                }
+            }
+            // range failures of prepare_truncate
+            if i == 0 {
+                for bad in [vec![0u8; 64], vec![0xFFu8; 64], sig[..63].to_vec()] {
+                    let b2 = bad.clone();
+                    let e = Ev::new("p256_prepare").b("sig", &bad);
+                    match guarded(move || PrivateKey::prepare_truncate(&b2)) {
+                        Ok(Some(p)) => tr.emit(e.t("some", true).b("out", &p)),
+                        Ok(None) => tr.emit(e.t("some", false)),
+                        Err(m) => tr.emit(e.s("panic", &m)),
+                    }
+                }
+            }
+        }
+    }
+}
